@@ -10,13 +10,14 @@
 (*                        first cell of the first multiset (First)         *)
 (*   InitS/NextS          random walks (tlc -simulate), printed by Finish  *)
 (*   InitR/NextR/EmitR    all leaf ranges [lo, hi)                         *)
-(*   InitM/NextM          many unions (NU = 14..24) for s2intersect.Find:  *)
+(*   InitM/NextM          many unions (NU = 14..130) for s2intersect.Find: *)
 (*                        every union is one small cell of its own (adds   *)
 (*                        no overlap) and two regions r1, r2 are added to  *)
 (*                        the unions whose indices are in s1, s2, chosen   *)
 (*                        from IdxSets (the driver puts index sets there   *)
 (*                        whose decimal renderings are easily confused:    *)
-(*                        {1,2,13}/{12,13}, {1,23}/{1,2,3}, ...)           *)
+(*                        {1,2,13}/{12,13}, {1,23}/{1,2,3}, ... and sets   *)
+(*                        with indices around 64 and 128)                  *)
 (***************************************************************************)
 EXTENDS CellUnions, Json
 
@@ -30,7 +31,7 @@ CONSTANT PerCell     \* single mode: emit the per-cell results for every cell
 CONSTANT SimLen      \* simulation: total number of cells in a case
 CONSTANT IdxSets     \* many-union family: sets of 0-based union indices sharing a region
 CONSTANT RegionPool  \* many-union family: cells used as shared regions (may nest)
-CONSTANT Fillers     \* many-union family: >= NU pairwise disjoint cells, disjoint from the regions
+CONSTANT Fillers     \* many-union family: pairwise disjoint cells (one per non-bare union), disjoint from the regions
 CONSTANT Bare        \* many-union family: 0-based indices of unions without a filler cell
 
 VARIABLE t
@@ -134,8 +135,11 @@ FindLaws ==
 
 \* ---- many unions -------------------------------------------------------------------------
 FillerSeq == SetToSortSeq(Fillers, <)
+\* the n-th union that is not bare gets the n-th filler cell (cached: a constant definition)
+FillerOf == [k \in 1..NU |-> IF (k - 1) \in Bare THEN <<>>
+                             ELSE <<FillerSeq[Cardinality({j \in 0..(k - 1) : j \notin Bare})]>>]
 ManyUnions(s1, r1, s2, r2) ==
-    [k \in 1..NU |-> (IF (k - 1) \in Bare THEN <<>> ELSE <<FillerSeq[k]>>)
+    [k \in 1..NU |-> FillerOf[k]
                      \o (IF (k - 1) \in s1 THEN <<r1>> ELSE <<>>)
                      \o (IF (k - 1) \in s2 THEN <<r2>> ELSE <<>>)]
 InitM == t \in {<<"many", s1, r1>> : s1 \in IdxSets, r1 \in RegionPool}
